@@ -74,6 +74,21 @@ fn corpus() -> Vec<LinearModel> {
     m.add_constraint(vec![0.0, 1.0], Comparison::LessOrEqual, -0.000001);
     m.set_objective(vec![1.0, 0.0], OptimizationType::Min);
     out.push(m);
+    // a genuine equality with right-hand side 0 and only non-positive entries: its artificial variable is still basic
+    // after phase one and has to be driven out with a negative pivot
+    let mut m = LinearModel::new();
+    for n in ["x", "y", "z"] { m.add_variable(n, nn); }
+    m.add_constraint(vec![-1.0, -1.0, 0.0], Comparison::Equal, 0.0);
+    m.add_constraint(vec![1.0, 0.0, 1.0], Comparison::Equal, 3.0);
+    m.set_objective(vec![1.0, 0.0, 0.0], OptimizationType::Max);
+    out.push(m);
+    let mut m = LinearModel::new();
+    for n in ["x", "y", "z"] { m.add_variable(n, nn); }
+    m.add_constraint(vec![-2.0, 0.0, -1.0], Comparison::Equal, 0.0);
+    m.add_constraint(vec![1.0, 1.0, 0.0], Comparison::GreaterOrEqual, 1.0);
+    m.add_constraint(vec![1.0, 1.0, 1.0], Comparison::LessOrEqual, 4.0);
+    m.set_objective(vec![-1.0, 1.0, -1.0], OptimizationType::Min);
+    out.push(m);
     out
 }
 
@@ -90,6 +105,24 @@ fn main() {
     let mut inputs = std::io::BufWriter::new(std::fs::File::create(format!("{outdir}/inputs.txt")).unwrap());
     let mut all = corpus();
     for _ in 0..n { all.push(gen_model(&mut r, None)); }
+    // degenerate stream: equalities with right-hand side 0 and one-signed rows next to ordinary rows (two-phase starts with
+    // artificial variables that stay basic at level 0)
+    for _ in 0..n / 4 {
+        let mut m = LinearModel::new();
+        let nv = 2 + r.below(2);
+        for i in 0..nv { m.add_variable(["x", "y", "z"][i], VariableType::NonNegativeReal(0.0, f64::INFINITY)); }
+        let sign = if r.chance(1, 2) { -1.0 } else { 1.0 };
+        let c: Vec<f64> = (0..nv).map(|_| sign * *r.pick(&[0.0, 1.0, 1.0, 2.0])).collect();
+        m.add_constraint(c, Comparison::Equal, 0.0);
+        for _ in 0..1 + r.below(2) {
+            let c: Vec<f64> = (0..nv).map(|_| *r.pick(&[0.0, 1.0, -1.0, 2.0, 1.0])).collect();
+            let cmp = match r.below(3) { 0 => Comparison::LessOrEqual, 1 => Comparison::GreaterOrEqual, _ => Comparison::Equal };
+            m.add_constraint(c, cmp, *r.pick(&[0.0, 1.0, 2.0, 3.0, 4.0]));
+        }
+        let obj: Vec<f64> = (0..nv).map(|_| *r.pick(&[0.0, 1.0, -1.0, 2.0])).collect();
+        m.set_objective(obj, if r.chance(1, 2) { OptimizationType::Min } else { OptimizationType::Max });
+        all.push(m);
+    }
     std::panic::set_hook(Box::new(|_| {}));
     for (idx, m) in all.iter().enumerate() {
         let text = m.to_string().replace('\n', " | ");
@@ -184,6 +217,8 @@ fn main() {
                                 }
                                 if st.b_vec().iter().any(|v| *v < -1e-5) { bad.push("basic solution negative beyond the solver tolerance 1e-5".into()); }
                                 for (row, b) in a0.iter().zip(b0.iter()) { if (dotv(row, &x) - b).abs() > 1e-6 { bad.push("basic solution violates the initial equalities".into()); } }
+                                // the start tableau must be equivalent to the standard form: every basic solution of the trace satisfies the standard form's own rows
+                                for (c, b) in rows.iter() { let n = c.len().min(x.len()); if (dotv(&c[..n], &x[..n]) - b).abs() > 1e-6 * b.abs().max(1.0) { bad.push(format!("basic solution violates a row of the standard form ({:?} = {})", c, b)); break; } }
                                 let o = dotv(&c_init, &x[..c_init.len().min(x.len())]);
                                 if o > prev_obj + 1e-7 { bad.push(format!("objective got worse: {prev_obj} -> {o}")); }
                                 prev_obj = o;
